@@ -67,6 +67,14 @@ def check(prop, tier, replay=None):
         obs_f = os.path.join(sd, 'obs.ndjson')
         C.run_sharded(kvh, 'store', cases_f, obs_f)
         obs = C.read_ndjson(obs_f)
+        # the real binary (cmd/kvass sidecar): assignment acknowledged over HTTP, process killed, started twice on the same store
+        nbin = 0
+        if not replay:
+            from . import binary as B
+            bobs = B.run_cases(scratch)
+            nbin = len(bobs)
+            obs += bobs
+            C.write_ndjson(obs_f, obs)
         drift = []
         for o in obs:
             m, r = o['out'], o['obs']
@@ -93,7 +101,7 @@ def check(prop, tier, replay=None):
                 text='%s: case %s observed %s' % (v['which'], json.dumps(o['case'], sort_keys=True), json.dumps(o['obs'], sort_keys=True)[:400])))
         cov = dict(states=mc['distinct'], transitions=mc['generated'], traces_validated_against_impl=len(obs) - len(drift),
                    samples=[dict(case=o['case'], model=o['out'], observed=o['obs']) for o in obs[:3]],
-                   evaluations=len(obs), distinct_nontrivial=stats.get('nontrivial', 0),
+                   evaluations=len(obs), distinct_nontrivial=stats.get('nontrivial', 0), runs_of_the_real_binary=nbin,
                    rule='one evaluation = one (previous assignment a, new assignment b, byte offset at which writing stops) run of the real '
                         'TargetsManager.UpdateTargets(b) in a child process under RLIMIT_FSIZE=offset, followed by two fresh Load() starts; '
                         'non-trivial: the write is cut before completion (counted by TLC)',
